@@ -39,8 +39,16 @@ pub fn lines(rng: &mut Rng) -> (Vec<String>, usize, bool) {
             let k = KEYS[rng.range(1, 14)];
             let v = match k {
                 "PKG_LOCATION" => if fault == 3 && r == fault_rec { rng.pick_str(&["bad", "a/b/c", "../x/y", "", "cat/..", "./pkg", "../../cat/..", "cat/."]).to_string() } else { good_path(rng) },
+                // scale: more distinct dependencies than a cache has slots, then the first ones again
+                "ALL_DEPENDS" if rng.chance(1, 400) => {
+                    let mut v: Vec<String> = (0..1100).map(|i| format!("lib{:05}>=1:../../devel/lib{:05}", i, i)).collect();
+                    v.push("lib00000>=1:../../devel/lib00000".into());
+                    v.push("lib00001>=1:../../devel/lib00001".into());
+                    v.join(" ")
+                }
                 "ALL_DEPENDS" => (0..rng.below(4)).map(|_| dep(rng, false)).collect::<Vec<_>>().join(rng.pick_str(&[" ", "  ", "\t"])),
-                "SCAN_DEPENDS" => (0..rng.below(4)).map(|i| format!("/usr/pkgsrc/mk/{}-{}.mk", tag, i)).collect::<Vec<_>>().join(" "),
+                // scale: a line longer than 64 KiB
+                "SCAN_DEPENDS" => (0..if rng.chance(1, 150) { 3000 } else { rng.below(4) }).map(|i| format!("/usr/pkgsrc/mk/{}-{}.mk", tag, i)).collect::<Vec<_>>().join(" "),
                 "MULTI_VERSION" => (0..rng.below(3)).map(|i| format!("PYTHON_VERSION_REQD={}{}", tag, i)).collect::<Vec<_>>().join(" "),
                 _ => match rng.below(5) { 0 => String::new(), 1 => format!("{} with = sign", tag), 2 => format!("{} é", tag), _ => format!("{}-{}", tag, rng.below(100)) },
             };
